@@ -1,6 +1,7 @@
 package main
 
 import (
+	"os"
 	"sort"
 	"fmt"
 	"go/token"
@@ -923,6 +924,37 @@ func siteKey(x ssa.Instruction) string {
 	return ""
 }
 
+// sitePos: a source position for ordering sites. A conditional branch has none of its own: it is placed at its
+// condition, else at the last positioned instruction in front of it in its block, else (the test of a range loop)
+// at the first positioned instruction of the branch it guards.
+func sitePos(x ssa.Instruction, depth int) token.Pos {
+	if p := x.Pos(); p.IsValid() {
+		return p
+	}
+	if i, ok := x.(*ssa.If); ok {
+		if p := i.Cond.Pos(); p.IsValid() {
+			return p
+		}
+		b := i.Block()
+		for k := len(b.Instrs) - 2; k >= 0; k-- {
+			if _, isPhi := b.Instrs[k].(*ssa.Phi); isPhi {
+				continue // a phi carries the position of the variable's declaration
+			}
+			if p := b.Instrs[k].Pos(); p.IsValid() {
+				return p
+			}
+		}
+		if depth < 3 && len(b.Succs) > 0 {
+			for _, ins := range b.Succs[0].Instrs {
+				if p := sitePos(ins, depth+1); p.IsValid() {
+					return p
+				}
+			}
+		}
+	}
+	return token.NoPos
+}
+
 // siteOrd: the ordinal of instruction x among the instructions of the function under contract that the
 // match string selects, in source order (position, then block and instruction index). Instructions of
 // inlined callees are not sites of the function under contract.
@@ -960,8 +992,8 @@ func (g *Gen) siteOrd(match string, x ssa.Instruction) (int, bool) {
 			}
 		}
 		sort.SliceStable(cs, func(a, b int) bool {
-			pa, pb := cs[a].ins.Pos(), cs[b].ins.Pos()
-			if pa.IsValid() && pb.IsValid() && pa != pb {
+			pa, pb := sitePos(cs[a].ins, 0), sitePos(cs[b].ins, 0)
+			if pa != pb {
 				return pa < pb
 			}
 			if cs[a].b != cs[b].b {
@@ -971,6 +1003,9 @@ func (g *Gen) siteOrd(match string, x ssa.Instruction) (int, bool) {
 		})
 		for i, c := range cs {
 			m[c.ins] = i
+			if os.Getenv("GOVC_DEBUG") != "" {
+				fmt.Fprintf(os.Stderr, "debug: site %s#%d = block %d instr %d at %v\n", match, i, c.b, c.i, g.prog.fset.Position(sitePos(c.ins, 0)))
+			}
 		}
 		g.siteSeen[ck] = m
 	}
